@@ -35,6 +35,7 @@ func Run(ctx *common.Ctx) {
 	}
 	h.checkOjgTables()
 	h.textStream(nText)
+	h.specialStream()
 	h.parseStream(nParse)
 	h.pathStream(nHist)
 	h.nativeStream(nNative)
